@@ -89,3 +89,123 @@ def run_tables(chk, histories, relevant, flavor="asan", label="tbl"):
     chk.add_traces(merged, relevant=relevant)
     shutil.rmtree(work, ignore_errors=True)
     return merged
+
+
+# ------------------------------------------------------------------------------------------
+# whole blocks as values (BlockValue.tla): items, the six manners of copying, generic reads
+# ------------------------------------------------------------------------------------------
+VINVS = ["C19_NoUB", "C19_ReadsOK", "C19_Cursors"]
+ALL_HOWS = '{"cctor", "mctor", "cassign", "massign", "rctor", "rassign"}'
+
+
+def value_models(chk, tier):
+    work = vlib.scratch("valmc")
+    maxops = 5 if tier == "quick" else 6
+    consts = {"MaxOps": maxops, "Vals": "{0, 1}", "ModelKinds": '{"qr", "aec"}', "ModelHows": ALL_HOWS, "Emit": "FALSE"}
+    cfg = vlib.make_cfg(work / "MCBlockValue.cfg", spec="MCSpec", constants=dict(consts, VBug='"none"'), invariants=VINVS)
+    res, verdict = vlib.model_check("MCBlockValue", cfg, workers=vlib.NCPU, timeout=2400, xmx="16g")
+    chk.add_model(f"MCBlockValue(MaxOps={maxops}, 3 slots, 2 values, 6 manners of copying)", res, verdict)
+    for bug in ("memberwise", "move_singular", "keep_cursor"):
+        cfg = vlib.make_cfg(work / f"MCBlockValue_{bug}.cfg", spec="MCSpec",
+                            constants=dict(consts, MaxOps=5, VBug=f'"{bug}"'), invariants=VINVS)
+        res, verdict = vlib.model_check("MCBlockValue", cfg, workers=4, timeout=600)
+        chk.add_model(f"MCBlockValue[VBug={bug}] (self-test, must fail)", res, verdict, expect="violated")
+    shutil.rmtree(work, ignore_errors=True)
+
+
+def generated_values(chk, maxops, limit=None):
+    work = vlib.scratch("valgen")
+    cfg = vlib.make_cfg(work / "Gen.cfg", spec="MCSpec",
+                        constants={"MaxOps": maxops, "Vals": "{0, 1}", "ModelKinds": '{"qr", "aec"}', "ModelHows": ALL_HOWS,
+                                   "Emit": "TRUE", "VBug": '"none"'},
+                        invariants=["EmitDone"])
+    res = vlib.run_tlc("MCBlockValue", cfg, workers=8, timeout=1500, xmx="8g")
+    if not vlib.tlc_ok(res):
+        raise vlib.Infra("block value history generation failed: " + res["out"][-2000:])
+    hs = []
+    for line in res["out"].splitlines():
+        if line.startswith('<<"HIST"'):
+            m = re.match(r'<<"HIST", (".*")>>\s*$', line)
+            hs.append(json.loads(json.loads(m.group(1))))
+    shutil.rmtree(work, ignore_errors=True)
+    chk.states += res["distinct"]
+    chk.transitions += res["generated"]
+    total = len(hs)
+    if limit and len(hs) > limit:
+        hs = random.Random(chk.seed * 17 + 3).sample(hs, limit)
+    # the same histories with malformed messages in the place of query/responses
+    hs = hs + [{"ops": [dict(o, k="mm") if o.get("k") == "qr" else o for o in h["ops"]]} for h in hs[::3]]
+    chk.extra["generated_value_histories_total"] = chk.extra.get("generated_value_histories_total", 0) + total
+    chk.extra["generated_value_histories_replayed"] = chk.extra.get("generated_value_histories_replayed", 0) + len(hs)
+    return hs
+
+
+def random_value_histories(rng, n, length):
+    """Longer histories respecting the read contract: a block is read only while unmodified since it was obtained."""
+    hs = []
+    for _ in range(n):
+        alive = {1}
+        armed = set()
+        nq = {1: 0, 2: 0, 3: 0}
+        ops = []
+        dom = rng.choice([3, 6, 40])
+        for _ in range(length):
+            x = rng.random()
+            t = rng.choice(sorted(alive))
+            if x < 0.40:
+                k = rng.choice(["qr", "qr", "aec", "aec", "mm"])
+                ops.append({"op": "item", "t": t, "k": k, "v": rng.randrange(dom)})
+                armed.discard(t)
+                if k == "qr":
+                    nq[t] += 1
+            elif x < 0.62:
+                d = rng.choice([u for u in (1, 2, 3) if u != t])
+                ctor = d not in alive
+                hows = ["cctor", "mctor"] if ctor else ["cassign", "massign"]
+                if nq[t] > 0:
+                    hows.append("rctor" if ctor else "rassign")
+                ops.append({"op": "copy", "src": t, "dst": d, "how": rng.choice(hows)})
+                alive.add(d)
+                armed.add(d)
+                nq[d] = nq[t]
+            elif x < 0.90 and armed:
+                t = rng.choice(sorted(armed))
+                k = rng.choice(["qr", "aec", "aec", "mm"])
+                for _ in range(rng.choice([1, 1, 2, 5])):
+                    ops.append({"op": "read", "t": t, "k": k})
+            elif x < 0.94:
+                ops.append({"op": "clear", "t": t})
+                armed.discard(t)
+                nq[t] = 0
+            elif x < 0.97 and len(alive) > 1:
+                ops.append({"op": "destroy", "t": t})
+                alive.discard(t)
+                armed.discard(t)
+                nq[t] = 0
+            else:
+                ops.append({"op": "ser", "t": t})
+        hs.append({"ops": ops})
+    return hs
+
+
+def run_values(chk, histories, relevant, flavor="asan", label="val"):
+    work = vlib.scratch(label)
+    hist = work / "histories.ndjson"
+    with open(hist, "w") as f:
+        for h in histories:
+            f.write(json.dumps(h) + "\n")
+    exe = vlib.build_driver("tbl_driver", flavor)
+    nsh = vlib.NCPU
+    files = [work / f"val.{i}.ndjson" for i in range(nsh)]
+    cmds = [[exe, "runblk", hist, i, nsh, files[i]] for i in range(nsh)]
+    env = {"VERIF_TMP": str(work), "ASAN_OPTIONS": "abort_on_error=1:detect_leaks=0:allocator_may_return_null=1",
+           "UBSAN_OPTIONS": "halt_on_error=1:abort_on_error=1"}
+    for cmd, rc, out in vlib.run_parallel(cmds, timeout=1800, env=env):
+        if rc != 0:
+            raise vlib.Infra(f"tbl_driver runblk failed rc={rc}: {out}")
+    merged = vlib.validate_traces("TraceBlockValue", files, constants={"VBug": '"none"'}, timeout=1800, label=label + "tv")
+    if histories:
+        chk.samples.append({"value_history": histories[0]["ops"][:12]})
+    chk.add_traces(merged, relevant=relevant)
+    shutil.rmtree(work, ignore_errors=True)
+    return merged
